@@ -144,8 +144,15 @@ struct JSONUtils {
                             ++offset;
 
                             if ((length - offset) > SizeT{3}) {
-                                SizeT32 code = Digit::HexStringToNumber<SizeT32>((content + offset), SizeT{4});
-                                offset += SizeT{4};
+                                SizeT   hex_end = (offset + SizeT{4});
+                                SizeT32 code    = Digit::HexStringToNumber<SizeT32>(content, offset, hex_end);
+
+                                if (offset != hex_end) {
+                                    // Not four hex digits: the escape would take units that are not its own
+                                    // (the closing quote among them).
+                                    return 0;
+                                }
+
                                 offset2 = offset;
 
                                 if ((code >> 10U) != 0x36U) {
@@ -157,12 +164,17 @@ struct JSONUtils {
                                 if (((length - offset) > SizeT{5}) && (content[offset] == JSONotation::BSlashChar) &&
                                     ((content[offset + SizeT{1}] == JSONotation::U_Char) ||
                                      (content[offset + SizeT{1}] == JSONotation::CU_Char))) {
-                                    const SizeT32 low =
-                                        Digit::HexStringToNumber<SizeT32>((content + offset + SizeT{2}), SizeT{4});
+                                    offset += SizeT{2};
+                                    hex_end = (offset + SizeT{4});
+
+                                    const SizeT32 low = Digit::HexStringToNumber<SizeT32>(content, offset, hex_end);
+
+                                    if (offset != hex_end) {
+                                        return 0;
+                                    }
 
                                     code = (((code ^ 0xD800U) << 10U) + (low & 0x3FFU) + 0x10000U);
                                     Unicode::ToUTF<Char_T>(code, stream);
-                                    offset += SizeT{6};
                                     offset2 = offset;
                                     continue;
                                 }
